@@ -1,3 +1,55 @@
-(* C12 — interim *)
-From Verif Require Import Base Codebase Exclude GenScan FsScan CheckCmd.
-Example C12_ex : check_exit [([[97]], [61])] = 1%Z. Proof. reflexivity. Qed.
+(* C12 — check and scan agree on every file.  Statements only; proofs in
+   Fs/CheckProofs.v over Fs/CheckCmd.v (check_command with the working directory at
+   the codebase root) and Fs/FsScan.v (scan_path): the same walk, the same exclusion
+   test, the same analysis oracle (= same lexer, same decoding, same scan_file). *)
+From Verif Require Import Base BaseProofs Codebase Exclude GenScan FsScan CheckCmd FsProofsWalk CheckProofs.
+From Coq Require Import Permutation Sorted.
+Open Scope Z_scope.
+
+Section C12.
+  Variable supported : pystr -> option pystr.
+  Variable analyze : pystr -> Z -> analysis.
+
+  (* a file that scan analyses, reached as a relative file path or through any directory above it
+     (the root included): check lists exactly the functions longer than 30 lines of scan's result *)
+  Theorem C12_listing : forall patterns children e arg, wf_tree children ->
+    In (e, true) (scan_tree supported analyze patterns None children) ->
+    arg = se_path e \/ strict_prefix arg (se_path e) ->
+    In (se_path e, risks (se_result e)) (check_arg supported analyze patterns children arg) /\
+    (forall rs, In (se_path e, rs) (check_arg supported analyze patterns children arg) -> rs = risks (se_result e)) /\
+    NoDup (map fst (check_arg supported analyze patterns children arg)).
+  Proof. intros patterns children e arg Hwf Hin. exact (CheckProofs.C12_listing supported analyze patterns children e Hwf Hin arg). Qed.
+
+  Theorem C12_risks : forall a,
+    Permutation (risks a) (filter (fun v => v >? 30) (a_meas a)) /\
+    StronglySorted (fun x y => x >= y) (risks a) /\
+    forall k, filter (fun v => v =? k) (risks a) = filter (fun v => v =? k) (filter (fun v => v >? 30) (a_meas a)).
+  Proof. exact risks_spec. Qed.
+
+  (* excluded: skipped however it is reached; hidden: skipped when reached through a directory above *)
+  Theorem C12_excluded_skipped : forall patterns children comps, excluded patterns comps = true ->
+    forall arg rs, ~ In (comps, rs) (check_arg supported analyze patterns children arg).
+  Proof. exact (CheckProofs.C12_excluded_skipped supported analyze). Qed.
+  Theorem C12_hidden_skipped_via_dir : forall patterns children arg comps, strict_prefix arg comps ->
+    existsb is_hidden (skipn (length arg) comps) = true ->
+    forall rs, ~ In (comps, rs) (check_arg supported analyze patterns children arg).
+  Proof. exact (CheckProofs.C12_hidden_skipped_via_dir supported analyze). Qed.
+
+  (* every file scan analyses is checked (from the root: literally the same list, same order) *)
+  Theorem C12_scanned_is_checked : forall patterns children,
+    map (fun eb => (se_path (fst eb), risks (se_result (fst eb)))) (scan_tree supported analyze patterns None children)
+    = check_arg supported analyze patterns children [].
+  Proof. exact (CheckProofs.C12_scanned_is_checked supported analyze). Qed.
+End C12.
+
+Theorem C12_exit : forall l,
+  (check_exit l = 1 <-> exists p rs v, In (p, rs) l /\ In v rs /\ v > 60) /\
+  (check_exit l = 0 <-> forall p rs v, In (p, rs) l -> In v rs -> v <= 60).
+Proof. exact CheckProofs.C12_exit. Qed.
+
+Print Assumptions C12_listing.
+Print Assumptions C12_risks.
+Print Assumptions C12_excluded_skipped.
+Print Assumptions C12_hidden_skipped_via_dir.
+Print Assumptions C12_scanned_is_checked.
+Print Assumptions C12_exit.
